@@ -23,8 +23,10 @@ REQUIRED_THEOREMS = [
     "Acn.C07.pilot_accepted_greedy", "Acn.C07.pilot_accepted_rr", "Acn.C07.le_remaining_greedy",
     "Acn.C07.le_remaining_rr", "Acn.C07.le_estimator_bound", "Acn.C07.zero_for_inactive_greedy",
     "Acn.C07.zero_for_inactive_rr", "Acn.C07.preprocess_lbOk", "Acn.C07.schedule_feasible",
+    "Acn.C07.sim_no_invalid_rate_partial", "Acn.C07.accepts_of_pilot_accepted",
+    "Acn.C07.ev_charge_le_requested", "Acn.C07.sim_delivered_le_requested_partial",
 ]
-BUDGET = {"quick": 900, "thorough": 9000, "search": 1200}
+BUDGET = {"quick": 900, "thorough": 6000, "search": 1200}
 TRUSTED = [
     "numpy (@, linalg.norm, arange, minimum, clip), Python sorted (stable), dict order, deque, copy",
     "Interface / Simulator / ChargingNetwork as the source of SessionInfo and InfrastructureInfo "
@@ -45,6 +47,8 @@ RULE = ("a case is an infrastructure (2-9 stations on three line pairs, delta-wy
         "either 1-3 direct schedule() calls on a real Interface/Simulator/ChargingNetwork state (partially served, "
         "nearly finished, session ids != station ids, shuffled) or a whole simulation with every run() captured; "
         "limits are drawn relative to the full-load aggregate so that ~60 % of calls have a binding constraint; "
+        "the thorough tier first runs an EXHAUSTIVE small scope (2-3 stations x every kind combination x limit grid x "
+        "every occupancy x small/large demand x both algorithms x sorts x uninterrupted, ~30 k calls); "
         "non-trivial = some call in which a constraint binds (some session got less than its own upper bound) "
         "or an estimator bound / remaining-demand bound / minimum pilot is the active bound")
 
@@ -320,8 +324,51 @@ def corpus():
     return [f6, swap, mixed]
 
 
+def enumerate_small():
+    """Exhaustive small scope (thorough tier): 2-3 stations of every kind combination, a mixed-sign row and
+    a pod row with every limit pair of a small grid, every non-empty occupancy, small/large remaining demand
+    per session, both algorithms, sort orders, uninterrupted on/off; one direct call each."""
+    import itertools
+    kinds = [{"t": "cont", "min": 0, "max": 16}, {"t": "finite", "rates": [0, 8, 16]}]
+    lines = ["AB", "CA", "BC"]
+    out = []
+    t, period, volt = 5, 5, 208
+    for n in (2, 3):
+        lim_grid = [6, 12.5, 20, 40] if n == 2 else [6, 20]
+        sorts = SORTS if n == 2 else ["fcfs", "lrpt"]
+        for ks in itertools.product(range(2), repeat=n):
+            stations = [{"id": f"st-{j}", "line": lines[j], "evse": kinds[ks[j]], "volt": volt,
+                         "phase": LINE_PHASE[lines[j]]} for j in range(n)]
+            mixed = {"st-0": 1.0, "st-1": -1.0}
+            if n == 3:
+                mixed["st-2"] = 0.5
+            pod = {f"st-{j}": 1.0 for j in range(n)}
+            for l1, l2 in itertools.product(lim_grid, repeat=2):
+                cons = [{"name": "c0", "coef": mixed, "limit": l1}, {"name": "c1", "coef": pod, "limit": l2}]
+                for occ in itertools.product((0, 1), repeat=n):
+                    present = [j for j in range(n) if occ[j]]
+                    if not present:
+                        continue
+                    for dem in itertools.product((0, 1), repeat=len(present)):
+                        evs = []
+                        for q, j in enumerate(present):
+                            remaining = 8.0 if dem[q] else 0.12
+                            evs.append({"session": f"sess-{j}", "station": f"st-{j}", "arrival": (2 * j + 1) % 4,
+                                        "departure": t + 2 + j, "est": t + 1 + (2 * j + q) % 3, "requested": 10.0,
+                                        "delivered": 10.0 - remaining, "prev_pilot": 0, "rate": 0, "max_override": None})
+                        order = list(range(len(evs)))[::-1]
+                        for algo, sort, un in itertools.product(("greedy", "rr"), sorts, (False, True)):
+                            out.append({"mode": "direct", "period": period, "stations": stations, "constraints": cons,
+                                        "calls": [{"time": t, "evs": evs, "order": order}],
+                                        "ramp": {"up": 1, "down": 1, "inc": 1}, "algo": algo, "sort": sort,
+                                        "uninterrupted": un, "estimate": False, "inc": 1, "enumerated": True})
+    return out
+
+
 def generate(rng, n, tier):
     out = []
+    if tier == "thorough":
+        out.extend(enumerate_small())
     for i in range(n):
         r = i % 10
         if r == 9:
@@ -604,6 +651,9 @@ def compare(case, obs, model):
             mb = {s: b2f(v) for s, v in m["bounds"]}
             if set(mb) != set(a["bounds"]) or any(not close(a["bounds"][s], mb[s]) for s in mb):
                 out.append(f"call {k}: estimator dict impl={a['bounds']} model={mb}")
+        if a["err"] is None and case["algo"] == "rr" and m.get("queue_left") != []:
+            # the implementation returned, i.e. its `while len(queue) > 0` loop ended with an empty deque
+            out.append(f"call {k}: model deque not empty at the end of its fuel: {m.get('queue_left')}")
         if a["err"] is None:
             ms = [b2f(x) for x in m["schedule"]]
             if set(a["schedule"]) != set(ids):
@@ -740,7 +790,7 @@ def nontrivial(case, obs):
 
 
 def features(case, obs):
-    out = ["mode:" + case["mode"], "algo:" + case["algo"], "sort:" + case["sort"],
+    out = ["mode:" + case["mode"] + (":enumerated" if case.get("enumerated") else ""), "algo:" + case["algo"], "sort:" + case["sort"],
            f"unint:{case['uninterrupted']}", f"est:{case['estimate']}", f"inc:{case['inc']}",
            f"stations:{len(case['stations'])}", f"calls:{min(len(obs['calls']), 20)}"]
     inf = obs["infra"]
